@@ -85,8 +85,8 @@ int main(int argc, char** argv){
         // the history of this session
         std::vector<std::vector<int>> passes;        // each pass = the flag sets of its execute() calls
         auto onePass = [&](){ std::vector<int> p; if(!(events & 4)) return std::vector<int>{F_ALL};
-            switch((int)(rng() % 5)){ case 0: p = {F_ALL}; break; case 1: p = {F_P2M|F_M2M, F_M2L|F_P2P, F_L2L|F_L2P}; break; case 2: p = {F_P2P, F_P2M|F_M2M|F_M2L, F_L2L|F_L2P}; break;
-                                    case 3: p = {F_P2M|F_M2M|F_M2L|F_L2L|F_L2P, F_P2P}; break; default: p = {F_P2M, F_M2M, F_M2L, F_L2L, F_L2P, F_P2P}; } return p; };
+            switch((int)(rng() % 5)){ case 0: p = {F_ALL}; break; case 1: p = {F_UP, F_TRANSFER, F_DOWN}; break; case 2: p = {F_P2P, F_P2M|F_M2M|F_M2L, F_L2L|F_L2P}; break;
+                                    case 3: p = {F_FAR, F_NEAR}; break; default: p = {F_P2M, F_M2M, F_M2L, F_L2L, F_L2P, F_P2P}; } return p; };
         passes.push_back(onePass());
         if((events & 4) && rng() % 2 == 0) passes.push_back(onePass());
         auto runPasses = [&](auto& tree, auto& algo, auto&& logTrees, auto&& moveSome){
